@@ -141,4 +141,13 @@ def one_shot(M):
             cells += 1
             if r[0] != "value" or not same_bv(r[1], ref ^ BV.const(0xFFFF)):
                 return ("bad", f"for the window start={st}, length={ln} of symbolic octets the result is not the complemented RFC 1662 fold over exactly data[start : start+length]")
+            if st <= 1 and ln <= 2:
+                # the same window of a bytearray (the type HdlcFrame collects its octets in): a byte string like any other
+                r2 = BVEval(M).apply(fn, [list(octs), st, ln])
+                if r2[0] in ("undecided", "branch"):
+                    return ("undecided", f"compute_checksum outside the interpreted subset for a bytearray (start={st}, length={ln}): {r2[1]!r}")
+                if r2[0] == "raise":
+                    return ("bad", f"compute_checksum raises {r2[1]} for a bytearray argument (start={st}, length={ln}): it accepts bytes only")
+                if not same_bv(r2[1], ref ^ BV.const(0xFFFF)):
+                    return ("bad", f"for a bytearray and the window start={st}, length={ln} the result is not the complemented RFC 1662 fold over exactly data[start : start+length]")
     return ("ok", cells)
